@@ -91,9 +91,15 @@ ATTRS += ['colspan="3"', 'rowspan="2" style="height:5px"']
 # cleaner, styleutils or miscutils read (or copy into the writers' vlist), written in every shape.
 # Attribute id len(ATTRS) + p*len(DIM_SHAPES) + s + 1 (0-based p, s) = property p in shape s.
 DIM_PROPS = [
+    # the first N_READ_PROPS are read by the cleaning passes themselves
     'style="overflow:auto; height:%s"',          # remove_scroll_elements -> styleutils.scale_length
     'style="overflow:auto; max-height:%s; height:%s"',
     'style="overflow:AUTO; HEIGHT:%s"',
+    'colspan="%s"',                                # AdvancedNode._clean_attrs / fix_table_colspans / numcols
+    'rowspan="%s"',                                # split_table_lists
+    'colspan=%s rowspan=%s',
+    'border="%s"',                                 # styleutils.table_border
+    # copied into the writers' vlist / read by styleutils for the writers
     'style="width:%s"',
     'style="height:%s; width:%s"',
     'style="font-size:%s"',
@@ -101,17 +107,23 @@ DIM_PROPS = [
     'style="border-width:%s; border-style:solid"',
     'style="border:%s solid"',
     'style="line-height:%s"',
-    'colspan="%s"',                                # AdvancedNode._clean_attrs / fix_table_colspans / numcols
-    'rowspan="%s"',                                # split_table_lists
-    'colspan=%s rowspan=%s',
-    'border="%s"',                                 # styleutils.table_border
     'width="%s"',
     'height="%s"',
     'cellpadding="%s" cellspacing="%s"',
 ]
+N_READ_PROPS = 7
 DIM_SHAPES = ["300px", "300pt", "30em", "50%", "150%", "300", "12.5px", "250.75pt", "-20px", "-5", "0", "0px", "0%", "",
               "auto", "12 px", "1e3px", "300PX", "40EM", "80 %", "px", "%", "3", "2", "17", "1.5", "100000000000000000000",
-              "3;", "\u0663"]
+              "3;", "\u0663",
+              # digit / dot runs that are not numbers, signs, separators, exponents, other digit scripts
+              "1.2.3px", "20..5em", ".px", "..", "5.px", ".5em", "1.2.3", "1,5px", "+3px", "- 3px", "3e", "3e5", "0x10px",
+              "\u0661\u0662px", "1_000px", "300px !important", "auto 300px", "300 px 20", "\u00bdem", "NaNpx", "infpx", "1e400px"]
+
+# one element per attribute (WikiDoc.tla AttrDoc): the host rotates with the attribute id
+ATTR_HOSTS = ["<div{A}>ad</div>", "a <span{A}>ad</span> b", "{|{A}\n| ad1 || ad2\n|-\n| ad3 || ad4\n|}",
+              "{|\n|-{A}\n| ad1 || ad2\n|-\n| ad3 || ad4\n|}", "{|\n|{A} | ad1\n| ad2\n|-\n| ad3 || ad4\n|}",
+              "{|\n|+{A} | adcap\n|-\n| ad1 || ad2\n|}", "<ul{A}><li>ad1</li><li>ad2</li></ul>"]
+
 
 
 # (block text, inline text)
@@ -192,9 +204,12 @@ SNIPS = [
     "<dl style=\"overflow:auto;height:300px\"><dt>st</dt><dd>sd</dd></dl>",
     "[[File:Pic.png|thumb|" + "long caption words <br/> " * 40 + "end]]",
     "{|\n|\n{|\n| " + " || ".join("n%d" % i for i in range(1, 18)) + "\n|}\n|}",
-    "{|\n| left\n|\n== big section ==\n" + "bigsection " * 200 + "\n|}",
+    "{|\n| left\n|\n== big section ==\n" + ("bigsection" * 25 + " ") * 9 + "\n|}",
     "<ref>[http://example.org/a first label] and [http://example.org/a second label] http://example.org/a</ref>",
     "{| class=\"infobox\"\n| ib1 || ib2\n|}",
+    "<h2><table><tr><td>hx</td><td>hy</td></tr></table> more title</h2>\n\nbody text",
+    "<h3><ul><li>hli</li><li>two</li></ul> more title</h3>\n\nbody text",
+    "<h2>{|\n| wx || wy\n|}\n more</h2>\n\nbody text",
     "<li>stray li</li>",
     "<td>stray td</td>",
     "<caption>stray cap</caption>",
@@ -228,6 +243,56 @@ def nest_text(code, attr):
     inner = blk if p == 0 else (blk + " tail") if p == 1 else ("head " + blk)
     return NEST_HOST[h].replace("{A}", _attr(attr)).replace("{X}", NEST_CONT[c][0] + inner + NEST_CONT[c][1])
 
+
+# ---- snippet families (products written out)
+# hidden host x hiding attribute: a NAMED reference with content inside something that is removed for
+# print, re-used later (remove_no_print_nodes / _safe_remove keep the reference)
+HIDE_ATTRS = ['class="noprint"', 'style="display:none"', 'style="visibility:hidden"', 'id="navbox"']
+HIDE_HOSTS = ["{|\n|+ {H} | hcap{R}\n|-\n| hc1 || hc2\n|}", "<table><caption {H}>hcap{R}</caption><tr><td>hc1</td><td>hc2</td></tr></table>",
+              "{|\n|- {H}\n| hrow{R} || hc2\n|-\n| hc3 || hc4\n|}", "{|\n| {H} | hcell{R}\n| hc2\n|-\n| hc3 || hc4\n|}",
+              "{|\n! {H} | hhead{R}\n! hc2\n|-\n| hc3 || hc4\n|}", "<div {H}>hdiv{R}</div>", "x <span {H}>hspan{R}</span> y",
+              "<ul><li {H}>hli{R}</li><li>two</li></ul>", "<dl><dd {H}>hdd{R}</dd></dl>", "{| {H}\n| htab{R} || hc2\n|}",
+              "{|\n|\n{|\n|+ {H} | hnest{R}\n|-\n| hc1 || hc2\n|}\n|}", "<center {H}>hcen{R}</center>", "<p {H}>hp{R}</p>",
+              "== hsec <span {H}>x{R}</span> =="]
+for _i, _h in enumerate(HIDE_HOSTS):
+    for _j, _a in enumerate(HIDE_ATTRS):
+        _n = "h%d_%d" % (_i, _j)
+        SNIPS.append(_h.replace("{H}", _a).replace("{R}", '<ref name="%s">kept %s</ref>' % (_n, _n)) + '\n\nuse<ref name="%s"/>' % _n)
+
+# tag extensions (mwlib.parser.tagext): the same tag with the same attributes and body twice
+TAGEXT = ['<rot13>abc def</rot13>', '<idl>interface X { };</idl>', '<syntaxhighlight lang="c">int x;</syntaxhighlight>',
+          '<rdf>about</rdf>', '<time>12:30</time>', '<hiero>A1</hiero>', '<section begin="s1"/>',
+          '<listing name="Place" address="Street 1">lis ting</listing>', '<see name="Sight" phone="1">a sight</see>',
+          '<buy name="Shop">a shop</buy>', '<do name="Thing">a thing</do>', '<eat name="Inn" address="Road 2">good food</eat>',
+          '<drink name="Bar">a bar</drink>', '<sleep name="Hotel" price="10">a bed</sleep>', '<timeline>x</timeline>', '<math>x^2</math>']
+for _t in TAGEXT:
+    SNIPS.append("first %s\n\n* second %s\n\n{|\n| third %s\n|}" % (_t, _t, _t))
+
+# long tables (>= 3 columns, > 2500 characters: split_table_to_columns' heading / list heuristics) x
+# cell content x caption richness x text before the table
+_LONG = ("long" * 55 + " ")          # few, long words: the heuristics count characters, the traces words
+_CELLS = {"plain": lambda k: _LONG + "c%d" % k,
+          "list": lambda k: "\n* li%d " % k + _LONG + "\n* two",
+          "bighead": lambda k: "<big>hd%d</big> " % k + _LONG + "\n* li%d\n* two" % k}
+_CAPS = {"nocap": "", "plaincap": "|+ long table caption\n",
+         "richcap": "|+ a ''b'' c <span><big>d</big></span> e <b><big>f</big></b> g <small>h</small> [[Tgtone|i]]\n"}
+for _r, _c in ((4, 3), (3, 5)):
+    for _ck in sorted(_CELLS):
+        for _cap in sorted(_CAPS):
+            for _pre in ("", "before the table " * 15 + "\n\n"):
+                _rows = "\n|-\n".join("\n".join("| " + _CELLS[_ck](i * _c + j) for j in range(_c)) for i in range(_r))
+                SNIPS.append(_pre + "{|\n" + _CAPS[_cap] + "|-\n" + _rows + "\n|}")
+
+# tall cells (split_big_table_cells / split_row): an oversized direct child (list of 16 items, a 1200
+# character paragraph) first / in the middle / last in a cell, in one- and two-column tables
+_BIGITEMS = {"list": "\n" + "\n".join("* item %d" % i for i in range(1, 17)) + "\n", "para": "\n\n" + ("paragraph" * 30 + " ") * 5 + "\n\n"}
+for _bk in sorted(_BIGITEMS):
+    for _posn in ("first", "middle", "last"):
+        for _cols in (1, 2):
+            _cell = {"first": _BIGITEMS[_bk] + "closing words", "middle": "intro words" + _BIGITEMS[_bk] + "closing words",
+                     "last": "intro words" + _BIGITEMS[_bk]}[_posn]
+            SNIPS.append("{|\n| " + _cell + ("\n| other column" if _cols == 2 else "") + "\n|-\n| second row" +
+                         ("\n| sr2" if _cols == 2 else "") + "\n|}")
 
 # free lexemes (malformed markup); used unless spec/WikiTokens.tla's emitted strings are supplied
 LEXEMES = [
@@ -308,7 +373,7 @@ def concretise(doc, lexemes=None):
         elif t == "tcc":
             o.append("!!" if a else "||")
         elif t == "tcap":
-            o.append("|+")
+            o.append("|+" + ((_attr(a) + " |") if a else ""))
         elif t == "so":
             o.append(STYLE_OPEN[(a, b)])
         elif t == "sc":
@@ -333,6 +398,8 @@ def concretise(doc, lexemes=None):
             o.append("<span%s>" % _attr(a))
         elif t == "xc":
             o.append("</span>")
+        elif t == "adoc":
+            o.append(ATTR_HOSTS[b % len(ATTR_HOSTS)].replace("{A}", _attr(a)))
         elif t == "nest":
             o.append(nest_text(a, b))
         elif t == "snip":
